@@ -104,6 +104,7 @@ type FnCtx struct {
 	wherePos   string
 	localTypes map[string]types.Type
 	inPattern bool
+	callOrd map[*ast.CallExpr]int
 	globalFacts []string
 	pendingPanics []*State
 	hasRecover bool
